@@ -201,6 +201,7 @@ func vhNameByte(b byte) bool {
 // tmpl: 0 "main.N"  1 "p.N"  2 "p/q.N"  3 "p/q%2er.N" (dot after last slash)
 //
 //	4 "p%XXq.N" (escaped byte)  5 "N" (no package: C / panic)  6 "p/q.(*T).N"  7 "p.N.func1.2"
+//	8 "p%XX/q.N" (escaped byte before the last slash)
 func vhSymbol(tag string, tmpl int) (raw []byte, imp string, name string) {
 	pb := func(t string, k int) []byte {
 		b := vBytes(tag+"."+t, k)
@@ -239,6 +240,14 @@ func vhSymbol(tag string, tmpl int) (raw []byte, imp string, name string) {
 		p, q := pb("p", 1), pb("q", 1)
 		n := "(*T)." + string(nb)
 		return vhCat(p, []byte("/"), q, []byte("."), []byte(n)), string(p) + "/" + string(q), n
+	case 8:
+		// an escaped byte in a path element before the last slash
+		p, q := pb("p", 1), pb("q", 1)
+		c := vByte(tag + ".esc")
+		vAssume(vOr(c <= ' ', vOr(c == '%', vOr(c == '"', c >= 0x7f))))
+		hex := "0123456789abcdef"
+		esc := []byte{'%', hex[c>>4], hex[c&15]}
+		return vhCat(p, esc, []byte("/"), q, []byte("."), nb), string(p) + string([]byte{c}) + "/" + string(q), string(nb)
 	default:
 		p := pb("p", 2)
 		n := string(nb) + ".func1.2"
@@ -327,7 +336,7 @@ func vhArgsSame(a, b *Args) bool {
 //
 //verif:prop C01
 //verif:param from 3,6
-//verif:param tmpl 0..7
+//verif:param tmpl 0..8
 //verif:param ashape quick=0,2,4,7 thorough=0..8
 //verif:param eol 0..1
 //verif:param nc 0..1
@@ -481,7 +490,7 @@ func VH_C01_File(from, sep, pshape, lnk, off, regs, eol int) {
 //
 //verif:prop C01
 //verif:param from 6,8
-//verif:param tmpl 0..7
+//verif:param tmpl 0..8
 //verif:param ing quick=0,2 thorough=0,1,2,18
 //verif:param eol 0..1
 func VH_C01_Created(from, tmpl, ing, eol int) {
